@@ -62,7 +62,7 @@ func init() {
 		ID: "C01",
 		Rule: "case = one input byte string x {DecodeBox, DecodeBoxSR, DecodeFile, DecodeFileSR} x {Encode, EncodeSW} (files: box-tree mode when fragmented, plain child loop when progressive), each combination on a fresh decode. " +
 			"Inputs: every corpus seed unmutated (repo testdata files <= 256 KiB and their mdat-shrunk variants, every box of every file cut out by the reference walker, hand-built instances of every registered type no file contains and of every version/flag shape, upstream fuzz seeds), " +
-			"then generated inputs (quick 40 000, thorough 1 500 000): 32% 1..3 stacked size-consistent structure-aware mutations (mut.Gentle), 20% single/multi bit flips in a box payload, 18% boundary/random values in aligned fields, 8% N1 largesize headers, 5% N2 non-adjacent trak children, 5% N3 surplus bytes after a leaf, 7% nesting 1..6 deep in typed/generic containers, 5% box sequences; " +
+			"then generated inputs (quick 120 000, thorough 3 000 000): 32% 1..3 stacked size-consistent structure-aware mutations (mut.Gentle), 20% single/multi bit flips in a box payload, 18% boundary/random values in aligned fields, 8% N1 largesize headers, 5% N2 non-adjacent trak children, 5% N3 surplus bytes after a leaf, 7% nesting 1..6 deep in typed/generic containers, 5% box sequences; " +
 			"additionally DecodeAVCDecConfRec / DecodeHEVCDecConfRec / DecodeAV1CodecConfRec -> Encode on every avcC/hvcC/av1C payload found in an accepted input. " +
 			"Oracle: y = E(P(x)) must equal x except in positions covered by /verif/c01_dontcare.json (masks looked up by innermost box type via the reference walker, version byte, payload offset; normalisations N1/N2/N3 recognised on the two walker trees); if y != x then P(y) must succeed, be structurally equal to P(x) (reflective comparison incl. unexported fields, nil == empty; position fields ignored only if a size/order normalisation applied) and E(P(y)) == y. A re-encode error on a decoded structure is a violation. " +
 			"non-trivial = accepted by at least one path and containing at least one registered non-container box other than free/skip; distinct by input hash. evaluations = (path, encoder) round trips performed.",
@@ -182,6 +182,20 @@ func exercise(c *runner.Ctx, in work.Input) {
 	}
 }
 
+// safeType renders a box type printable (the 0xa9 of the iTunes types is not
+// valid UTF-8 and would not survive the JSON evidence file).
+func safeType(t string) string {
+	var sb strings.Builder
+	for i := 0; i < len(t); i++ {
+		if t[i] < 0x20 || t[i] > 0x7e {
+			fmt.Fprintf(&sb, "\\x%02x", t[i])
+		} else {
+			sb.WriteByte(t[i])
+		}
+	}
+	return sb.String()
+}
+
 func minInt(a, b int) int {
 	if a < b {
 		return a
@@ -195,7 +209,7 @@ func accountTypes(c *runner.Ctx, x []byte) bool {
 	nodes, err := boxwalk.Walk(x)
 	if err != nil {
 		if len(x) >= 8 && registered[string(x[4:8])] {
-			c.Seen("accepted_type", string(x[4:8]))
+			c.Seen("accepted_type", safeType(string(x[4:8])))
 			return true
 		}
 		return false
@@ -205,7 +219,7 @@ func accountTypes(c *runner.Ctx, x []byte) bool {
 		if !registered[n.Type] {
 			continue
 		}
-		c.Seen("accepted_type", n.Type)
+		c.Seen("accepted_type", safeType(n.Type))
 		if !n.Container && n.Type != "free" && n.Type != "skip" {
 			non = true
 		}
@@ -517,9 +531,9 @@ func finalize(a *runner.Agg) {
 	perType := map[string]int64{}
 	var missing []string
 	for t := range types {
-		perType[t] = a.Seen["accepted_type"][t]
-		if perType[t] == 0 {
-			missing = append(missing, t)
+		perType[safeType(t)] = a.Seen["accepted_type"][safeType(t)]
+		if perType[safeType(t)] == 0 {
+			missing = append(missing, safeType(t))
 		}
 	}
 	sort.Strings(missing)
